@@ -124,6 +124,11 @@ class SourceAD(MVPN):
             )
         cursor += sourceiplen
 
+        # the source address the route announces must leave room for the group length octet:
+        # a 32 bit route announcing a 128 bit source indexed past the end (IndexError, not Notify)
+        if cursor >= len(packed):
+            raise Notify(3, 5, 'Invalid Source Active A-D Route: the source address runs past the end of the route.')
+
         # Validate group IP length
         groupiplen = int(packed[cursor] / 8)
         if groupiplen != IPv4.BYTES and groupiplen != IPv6.BYTES:
@@ -132,6 +137,8 @@ class SourceAD(MVPN):
                 5,
                 f'Unsupported Source Active A-D Route Multicast Group IP length ({groupiplen * 8} bits). Expected 32 bits (IPv4) or 128 bits (IPv6).',
             )
+        if cursor + 1 + groupiplen != len(packed):
+            raise Notify(3, 5, 'Invalid Source Active A-D Route: the address lengths do not add up to the route length.')
 
         # Missing implementation of this check from RFC 6514:
         # Source Active A-D routes with a Multicast group belonging to the
